@@ -63,6 +63,48 @@ void h_range_parameter(void)
     }
     free(vpmrp); free(vnp); free(vcp);
 }
+
+
+/* ---- correlated standards: the sigma grid further restricts the usable range */
+void h_range_correlated(void)
+{
+    IN(double, fmin);
+    IN(double, fmax);
+    IN(double, sfmin);
+    IN(double, sfmax);
+    IN(bool, errfn);
+    double sfv[2], cfv[2], sigma[2] = { 0.1, 0.1 };
+    vnacal_t *vcp = mk_vcp_min(errfn);
+    vnacal_parameter_t guess, corr;
+    vnacal_new_t *vnp;
+    int rc;
+
+    ASSUME(RANGE_PRE(fmin, fmax));
+    ASSUME(sfmin == sfmin && sfmax == sfmax && sfmin >= 0.0 && sfmin <= sfmax);
+    sfv[0] = sfmin; sfv[1] = sfmax;
+    cfv[0] = fmin; cfv[1] = fmax;
+    /* the initial guess is a scalar: valid at every frequency */
+    (void)memset((void *)&guess, 0, sizeof(guess));
+    guess.vpmr_type = VNACAL_SCALAR;
+    guess.vpmr_hold_count = 2;
+    guess.vpmr_index = 3;
+    guess.vpmr_vcp = vcp;
+    (void)memset((void *)&corr, 0, sizeof(corr));
+    corr.vpmr_type = VNACAL_CORRELATED;
+    corr.vpmr_hold_count = 1;
+    corr.vpmr_index = 4;
+    corr.vpmr_vcp = vcp;
+    corr.vpmr_other = &guess;
+    corr.vpmr_sigma_frequencies = 2;
+    corr.vpmr_sigma_frequency_vector = sfv;
+    corr.vpmr_sigma_vector = sigma;
+    vnp = mk_vnp_min(vcp, VNACAL_T8, 2, 2, 2, cfv);
+    ghost_err_reset();
+    rc = check_single_frequency_range("h", vnp, fmin, fmax, &corr);
+    REACH("range check of a correlated parameter returned");
+    RANGE_POST("correlated standard (sigma grid)", rc == -1, fmin, fmax, sfmin, sfmax);
+    free(vnp); free(vcp);
+}
 #endif
 
 #ifdef H_M_ERROR
